@@ -56,68 +56,79 @@ Definition enter (st : astate) : astate :=
 Definition leave (st : astate) : astate :=
   {| aopen := aopen st; adone := adone st; adepth := pred (adepth st) |}.
 
-Section WithHeap.
-Variable hp : heap.
+(* One level of the traversal, with the recursive call [rec] abstracted (same shape as
+   Enc.enc_step / Enc.enc_body, so that [abs] and [enc] consume fuel at the same rate: a
+   tracked pointer and the body it points to are handled at the same level). *)
+Section WithRec.
+Variable rec : astate -> gval -> option (dval * astate).
 
-Fixpoint abs (fuel : nat) (st : astate) (v : gval) {struct fuel} : option (dval * astate) :=
-  match fuel with
-  | O => None
-  | S f =>
-      let container (mk : list dval -> dval) (vs : list gval) :=
-        match abs_seq (abs f) (enter st) vs with
-        | Some (ds, st1) => Some (mk ds, leave st1)
-        | None => None
-        end in
-      match v with
-      | GNil => Some (DNull, st)
-      | GBool b => Some (DBool b, st)
-      | GInt _ z => Some (DInt z, st)
-      | GFloat fv => Some (abs_float fv, st)
-      | GComplex re im im_zero =>
-          Some (if im_zero then abs_float re else DList [abs_float re; abs_float im], st)
-      | GString s => Some (if (length s =? 0)%nat then DStr [] else abs_string s, st)
-      | GBytes b => Some (DBytes b, st)
-      | GBytes2d rows =>
-          Some (DList (map (fun r => match r with Some b => DBytes b | None => DNull end) rows), st)
-      | GSlice vs | GList vs => container DList vs
-      | GMap kvs => container DMap kvs
-      | GStruct name fields vs => container (DObj name fields) vs
-      | GAnon fields vs => container (fun ds => DMap (interleave fields ds)) vs
-      | GTime y mo d h mi s ns utc =>
-          match abs_time y mo d h mi s ns utc with Some dv => Some (dv, st) | None => None end
-      | GUuid txt => Some (DGuid txt, st)
-      | GBigInt z => Some (DInt z, st)
-      | GBigFloat txt => Some (DDouble txt, st)
-      | GBigRat num txt => Some (match num with Some z => DInt z | None => abs_string txt end, st)
-      | GError msg => Some (DErr (abs_string msg), st)
-      | GPtr a =>
-          match hlookup hp a with
-          | None => None
-          | Some pv =>
-              match pv with
-              | GBytes _ | GBytes2d _ | GSlice _ | GList _ | GMap _ | GStruct _ _ _ | GAnon _ _
-              | GTime _ _ _ _ _ _ _ _ | GUuid _ =>
-                  match find_open (aopen st) a with
-                  | Some d => Some (DCycle (adepth st - d), st)
-                  | None =>
-                      match find_done (adone st) a with
-                      | Some dv => Some (dv, st)
-                      | None =>
-                          let st0 := {| aopen := (a, adepth st) :: aopen st; adone := adone st; adepth := adepth st |} in
-                          match abs f st0 pv with
-                          | Some (dv, st1) =>
-                              Some (dv, {| aopen := aopen st; adone := (a, dv) :: adone st1; adepth := adepth st |})
-                          | None => None
-                          end
-                      end
-                  end
-              | _ => abs f st pv
-              end
-          end
-      end
+(* everything except the pointer case *)
+Definition abs_node (st : astate) (v : gval) : option (dval * astate) :=
+  let container (mk : list dval -> dval) (vs : list gval) :=
+    match abs_seq rec (enter st) vs with
+    | Some (ds, st1) => Some (mk ds, leave st1)
+    | None => None
+    end in
+  match v with
+  | GNil => Some (DNull, st)
+  | GBool b => Some (DBool b, st)
+  | GInt _ z => Some (DInt z, st)
+  | GFloat fv => Some (abs_float fv, st)
+  | GComplex re im im_zero =>
+      Some (if im_zero then abs_float re else DList [abs_float re; abs_float im], st)
+  | GString s => Some (if (length s =? 0)%nat then DStr [] else abs_string s, st)
+  | GBytes b => Some (DBytes b, st)
+  | GBytes2d rows =>
+      Some (DList (map (fun r => match r with Some b => DBytes b | None => DNull end) rows), st)
+  | GSlice vs | GList vs => container DList vs
+  | GMap kvs => container DMap kvs
+  | GStruct name fields vs => container (DObj name fields) vs
+  | GAnon fields vs => container (fun ds => DMap (interleave fields ds)) vs
+  | GTime y mo d h mi s ns utc =>
+      match abs_time y mo d h mi s ns utc with Some dv => Some (dv, st) | None => None end
+  | GUuid txt => Some (DGuid txt, st)
+  | GBigInt z => Some (DInt z, st)
+  | GBigFloat txt => Some (DDouble txt, st)
+  | GBigRat num txt => Some (match num with Some z => DInt z | None => abs_string txt end, st)
+  | GError msg => Some (DErr (abs_string msg), st)
+  | GPtr _ => None                      (* pointers are resolved by [abs_step] *)
   end.
 
-End WithHeap.
+Variable hp : heap.
+
+Definition abs_step (st : astate) (v : gval) : option (dval * astate) :=
+  match v with
+  | GPtr a =>
+      match hlookup hp a with
+      | None => None
+      | Some pv =>
+          if tracked pv then
+            match find_open (aopen st) a with
+            | Some d => Some (DCycle (adepth st - d), st)
+            | None =>
+                match find_done (adone st) a with
+                | Some dv => Some (dv, st)
+                | None =>
+                    let st0 := {| aopen := (a, adepth st) :: aopen st; adone := adone st; adepth := adepth st |} in
+                    match abs_node st0 pv with
+                    | Some (dv, st1) =>
+                        Some (dv, {| aopen := aopen st; adone := (a, dv) :: adone st1; adepth := adepth st |})
+                    | None => None
+                    end
+                end
+            end
+          else rec st pv               (* scalars, strings, big numbers, errors, **T: transparent *)
+      end
+  | _ => abs_node st v
+  end.
+
+End WithRec.
+
+Fixpoint abs (hp : heap) (fuel : nat) (st : astate) (v : gval) {struct fuel} : option (dval * astate) :=
+  match fuel with
+  | O => None
+  | S f => abs_step (abs hp f) hp st v
+  end.
 
 (* In simple mode there are no back-references: shared pointers are written again. *)
 Definition abs_top (hp : heap) (fuel : nat) (v : gval) : option dval :=
